@@ -5,6 +5,7 @@ from checks import langgen as lg
 from checks import langcommon as lc
 from checks import objgen as og
 from checks.c09 import same
+from checks import c16
 
 TRUSTED_BASE = [
     "Coq 8.16.1 kernel (coqc); vm_compute only in the Examples",
@@ -45,19 +46,34 @@ def run(chk):
             progs.append(g.program())
         else:
             progs.append((lg.Gen(rng, nfuncs=rng.randint(2, 4)).program(), None))
+    mutated = []      # edited programs are only analysed, not run: an edit may well make a loop endless
+    # rejected programs too: one rule-directed violation (C16's edits) must be rejected in every order
+    nbad = 0
+    for i in range(n // 3):
+        fns = lg.Gen(rng, nfuncs=rng.randint(2, 4)).program()
+        m = c16.mutate(rng, fns)
+        if m is None:
+            continue
+        try:
+            lg.prog_src(m[0])
+        except Exception:
+            continue
+        mutated.append((m[0], None))
+        nbad += 1
     # the reference interpreter looks declarations up by name (order independent by theorem); the implementation
     # must agree with it on the generated order ...
     recs, counts = lc.differential(chk, progs, "c10")
     # ... and with itself on every permutation
-    base_src, var_src, meta = [], [], []
-    for (fns, classes) in progs:
+    base_src, var_src, meta, opts = [], [], [], []
+    for (fns, classes), opt in [(p, "") for p in progs] + [(p, "noexec") for p in mutated]:
         nd = len(classes or []) + len(fns)
         for p in perms(rng, nd, 3 if quick else 5):
             base_src.append(lg.prog_src(fns, classes))
             var_src.append(lg.prog_src(fns, classes, order=p))
             meta.append(p)
-    ra = lc.run_impl(base_src)
-    rb = lc.run_impl(var_src)
+            opts.append(opt)
+    ra = lc.run_impl(base_src, opts=opts)
+    rb = lc.run_impl(var_src, opts=opts)
     ndiff = 0
     nontriv = set()
     accepted = rejected = 0
